@@ -12,6 +12,7 @@ EXPLANATION = (
     "two sample values holding at least as many points is shorter; a 2-D input gives column-wise the 1-D result; "
     "the result is invariant under generators of the permutation group (swap, rotation) and covariant under "
     "x -> a*x+b (a>0); the caller's array / list still holds its original values in the original order."
+    ' 2-D inputs are handed over in C order, Fortran order, as a transposed view and as a strided slice. IEEE unit: the same code on z3 FloatingPoint doubles (round to nearest even) with the end points asserted to be sample members and the coverage count asserted exactly.'
 )
 BOUNDS = {"quick": "n = 2..4 sample points (1-D), 2 points x 2 columns", "thorough": "n = 5 (1-D), 3 points x 2 columns"}
 ASSUMPTIONS = ["floats modelled as reals (ties are exact equalities)", "object-dtype sort/argmin implement the same ordering semantics as float arrays"]
@@ -78,17 +79,35 @@ def hdi_list_input_and_unchanged(h, n):
     h.eq("caller's list unchanged", np.array(lst, dtype=object if h.sym else float), s)
 
 
-@unit("C13", quick=[dict(n=2)], thorough=[dict(n=3)], max_paths=20000, cost=9)
-def hdi_columns_independent(h, n):
+@unit("C13", quick=[dict(n=2), dict(n=2, layout="F"), dict(n=2, layout="T"), dict(n=2, layout="strided")], thorough=[dict(n=3), dict(n=3, layout="F")],
+      max_paths=20000, cost=9)
+def hdi_columns_independent(h, n, layout="C"):
+    """2-D input in every memory layout a caller can hand over: C-ordered, Fortran-ordered, a transposed view of an
+    (n_columns, n_samples) array, a strided slice of a wider array"""
     hdi = _hdi(h)
-    s = h.real("s", (n, 2))
+    vals = h.real("s", (n, 2))
+    dt = object if h.sym else float
+    if layout == "C":
+        s = np.array(vals, dtype=dt, order="C")
+    elif layout == "F":
+        s = np.array(vals, dtype=dt, order="F")
+    elif layout == "T":
+        base = np.array(vals.T, dtype=dt, order="C")
+        s = base.T
+    else:
+        base = np.empty((n, 4), dtype=dt)
+        base[:, ::2] = vals
+        base[:, 1::2] = 0.0
+        s = base[:, ::2]
     f = h.real("f", lo=0, hi=1, lo_strict=True, hi_strict=True)
-    orig = s.copy()
+    orig = np.array(vals, dtype=dt)
     out = hdi(s, f)
     h.same("result shape", np.asarray(out).shape, (2, 2))
     for j in range(2):
         h.eq(f"column {j} == 1-D call", out[:, j], hdi(orig[:, j].copy(), f))
     h.eq("caller's array unchanged", s, orig)
+    if layout in ("T", "strided"):
+        h.eq("the array the caller's view belongs to is unchanged", base.T if layout == "T" else base[:, ::2], orig)
 
 
 @unit("C13", quick=[dict(n=3, g="swap"), dict(n=3, g="rot")], thorough=[dict(n=4, g="swap"), dict(n=4, g="rot")], max_paths=20000, cost=9)
@@ -109,3 +128,40 @@ def hdi_affine_covariant(h, n):
     a = h.real("a", pos=True)
     b = h.real("b")
     h.eq("hdi(a*s+b) == a*hdi(s)+b", hdi(a * s + b, f), a * hdi(s.copy(), f) + b)
+
+
+@unit("C13", quick=[dict(n=3, frac=0.5), dict(n=4, frac=0.3, presorted=True)],
+      thorough=[dict(n=4, frac=0.5, presorted=True), dict(n=4, frac=0.3), dict(n=5, frac=0.7, presorted=True)],
+      max_paths=4000, cost=4, timeout_ms=60000)
+def end_points_are_sample_values_in_ieee_arithmetic(h, n, frac, presorted=False):
+    """the same real code on IEEE-754 doubles (z3 FloatingPoint terms, round-to-nearest-even; symnp.fp): every arithmetic
+    step rounds as the hardware does, so 'the reported end points are sample values' and 'at least the requested fraction
+    lies inside' are decided as exact statements about doubles (any finite doubles, ties, signed zeros; the fraction is
+    concrete because it only selects the window length)"""
+    from symnp import fp
+    from symnp.core import SymBool
+    hdi = _hdi(h)
+    s = h.fp("s", n)
+    orig = list(s)
+    if presorted:
+        # the sort only compares (exact in IEEE arithmetic; reordering is the subject of hdi_permutation_invariant), so the
+        # larger instances take the sample in ascending order and spend the budget on the rounded arithmetic behind it
+        for a, b in zip(orig[:-1], orig[1:]):
+            h.assume(a <= b, "sample given in ascending order")
+    out = np.asarray(hdi(s.copy(), frac))
+    h.same("two end points", out.shape, (2,))
+    lo, hi = out[0], out[1]
+
+    def member(v):
+        if h.sym:
+            return SymBool(z3.Or(*[z3.fpEQ(fp.fpv(v), fp.fpv(x)) for x in orig]))
+        return bool(any(float(v) == float(x) for x in orig))
+    h.true("lower end point is one of the sample's doubles", member(lo))
+    h.true("upper end point is one of the sample's doubles", member(hi))
+    need = int(frac * n)
+    if h.sym:
+        inside = [z3.And(z3.fpLEQ(fp.fpv(lo), fp.fpv(x)), z3.fpLEQ(fp.fpv(x), fp.fpv(hi))) for x in orig]
+        cnt = z3.Sum([z3.If(c, 1, 0) for c in inside])
+        h.true("at least int(fraction*n)+1 sample points inside", SymBool(cnt >= need + 1))
+    else:
+        h.true("at least int(fraction*n)+1 sample points inside", sum(1 for x in orig if float(lo) <= float(x) <= float(hi)) >= need + 1)
